@@ -192,6 +192,8 @@ Proof.
   - intros H; inv H.
   - intros H; inv H.
   - destruct (p_stack ps); intros H; inv H. split; [reflexivity | apply same_content_refl].
+  - unfold set_origin. destruct (nth_error (b_items st) i); [|intros H; inv H; split; [reflexivity | apply same_content_refl]].
+    destruct r; intros H; inv H; split; try reflexivity; apply same_content_refl.
 Qed.
 
 (* ---------- C07: copy numbers make identities unique within a set ---------- *)
@@ -463,6 +465,9 @@ Proof.
   - intros H; inv H; auto.
   - intros H; inv H; auto.
   - destruct (p_stack ps); intros H; inv H; auto.
+  - unfold set_origin. destruct (nth_error (b_items st) i) as [it|] eqn:En; [|intros H; inv H; auto].
+    assert (Hit : item_at st i = it) by (unfold item_at; apply nth_error_nth; exact En).
+    destruct r; intros H Hi; inv H; try exact Hi. apply set_item_inv; [reflexivity | reflexivity | exact Hi].
 Qed.
 
 Theorem run_ops_inv_copy : forall ops ps st, Inv_copy st -> Inv_copy (bstate_of (run_ops ps st ops)).
